@@ -33,7 +33,7 @@ RULE = ("for each scenario of the fixed catalogue: one clean run counts the N al
         "the scenario went on to its tear-down; distinct = distinct (variant, scenario, k1, k2)")
 
 WRAPS = ["coap_ticks", "coap_socket_send", "coap_socket_recv",
-         "coap_malloc_type", "coap_realloc_type", "coap_free_type", "coap_io_process_lkd"]
+         "coap_malloc_type", "coap_realloc_type", "coap_free_type", "coap_io_process_lkd", "malloc"]
 
 MEMTAG = ["STRING", "ATTRIBUTE_NAME", "ATTRIBUTE_VALUE", "PACKET", "NODE", "CONTEXT", "ENDPOINT",
           "PDU", "PDU_BUF", "RESOURCE", "RESOURCEATTR", "DTLS_SESSION", "SESSION", "OPTLIST",
@@ -54,7 +54,7 @@ def parse_result(line):
     d = {"raw": line}
     m = re.match(r"(OK|HANG|CRASH sig=\d+|EXIT code=-?\d+)", line)
     d["status"] = m.group(1) if m else "GARBLED"
-    for key in ("site", "n", "inj", "canary", "guard", "poison", "live", "tm", "leaked", "sends", "res",
+    for key in ("site", "n", "inj", "canary", "guard", "poison", "live", "tm", "un", "leaked", "sends", "res",
                 "trace", "sites"):
         m = re.search(r" %s=(\S+)" % key, line)
         d[key] = m.group(1) if m else "?"
@@ -219,6 +219,8 @@ def ownerships(model, ds):
 def site_matches(site, chain):
     """a known site (function names innermost first) matches when it is a contiguous part of
     the chain of the failed allocation"""
+    if site == "*":
+        return True
     a, b = site.split("<"), chain.split("<")
     return any(b[i:i + len(a)] == a for i in range(len(b) - len(a) + 1))
 
@@ -388,6 +390,45 @@ def enumerate_variant(run, model, exe, variant, scen_list, pairs, stats, env=Non
     return failures
 
 
+def uthash_enum(run, model, exe, variant, scen_list, stats, env=None):
+    """libcoap's direct malloc() calls (uthash: hash head, bucket array, bucket expansion) do not
+    go through coap_malloc_type; the driver sees them through --wrap=malloc.  Fail the j-th one,
+    j = 1..U of the clean run, judged like every other run."""
+    rs = Resolver(exe)
+    failures = {}
+    for sc in scen_list:
+        out = run_chunks(exe, ["fa %s 0 0" % sc], env=env, jobs=1)
+        c = parse_result(out[0])
+        if c["status"] != "OK" or not c["un"].isdigit():
+            continue
+        U = int(c["un"])
+        lines = ["fa %s 0 0 U%d" % (sc, j) for j in range(1, U + 1)]
+        ds = [parse_result(o) for o in run_chunks(exe, lines, env=env)]
+        vs = verdicts(model, [d["trace"] if d["status"] == "OK" else "-" for d in ds])
+        ows = ownerships(model, ds)
+        nfail = 0
+        for ln, d, v, ow in zip(lines, ds, vs, ows):
+            notices = parse_notice(d["site"])
+            run.count("%s %s" % (variant, ln), bool(notices))
+            bad = judge(d, c, v, ow, rs)
+            if not bad:
+                continue
+            nfail += 1
+            chains = [rs.chain(nt["bt"]) for nt in notices] or ["?"]
+            for kind, detail in bad:
+                key = (sc, kind, "uthash", " & ".join(chains))
+                failures.setdefault(key, []).append(
+                    {"case": ln, "detail": "uthash malloc: " + detail, "status": d["status"], "verdict": v,
+                     "chains": chains, "site": "direct malloc(%s) of libcoap (uthash)" %
+                     (notices[0]["size"] if notices else "?"),
+                     "backtrace": " || ".join(" <- ".join(rs.resolve(nt["bt"])) for nt in notices) or "?",
+                     "res": d["res"][:600], "clean_res": c["res"][:600]})
+                run.hist("failure_kind", "uthash-" + kind)
+        stats.setdefault(sc, {}).setdefault(variant, {})["uthash_mallocs"] = U
+        stats[sc][variant]["uthash_failing_runs"] = nfail
+    return failures
+
+
 def report(run, failures, variant, rerun=None):
     nv = 0
     for (sc, kind, dkey, chain), cs in sorted(failures.items()):
@@ -525,8 +566,8 @@ def main(run):
         "model: Fault/AllocOracle.v (trace oracle), Fault/PduAtomic.v (PDU builder with an "
         "allocation oracle; abstract message from Wire/Build.v)"]
     run.assumptions = [
-        "only allocations made through coap_malloc_type/coap_realloc_type are failed: uthash's "
-        "direct malloc() (hash heads/buckets), GnuTLS and libc are out of scope",
+        "failed are the allocations made through coap_malloc_type/coap_realloc_type and (single "
+        "failures only) libcoap's direct malloc() calls (uthash); GnuTLS and libc are out of scope",
         "single failures (thorough: pairs); not arbitrary failure sets",
         "the scenario catalogue is fixed (harness/h_fault.c); UDP only, no DTLS/TCP/WebSocket/OSCORE"]
     run.prove()
@@ -555,6 +596,7 @@ def main(run):
                 return detail
         return None
     nv = report(run, fails, "base", rerun_leak)
+    nv += report(run, uthash_enum(run, model, exe, "base", scen, stats), "base")
     if thorough:
         exe_a = vlib.build_driver("h_fault", ["h_fault.c"], "asan", extra=["-no-pie"], wraps=WRAPS)
         fails_a = enumerate_variant(run, model, exe_a, "asan", scen, False, stats, env=ASAN_ENV)
